@@ -16,7 +16,7 @@ package hash
 //@   requires each(initialData, d, hashable(d))
 //@   modifies nothing
 //@   allocates
-//@   ensures result != nil && result.h != nil && fresh(result)
+//@   ensures result != nil && result.h != nil && fresh(result) && fresh(result.h)
 
 //@ func (*Hash).WriteAny
 //@   nopanic[C05]
@@ -47,7 +47,7 @@ package hash
 //@   requires hash != nil && hash.h != nil
 //@   modifies nothing
 //@   allocates
-//@   ensures result != nil && result.h != nil && fresh(result)
+//@   ensures result != nil && result.h != nil && fresh(result) && fresh(result.h)
 
 //@ func (*Hash).Fork
 //@   nopanic[C05]
@@ -55,7 +55,7 @@ package hash
 //@   requires each(data, d, hashable(d))
 //@   modifies nothing
 //@   allocates
-//@   ensures result != nil && result.h != nil
+//@   ensures result != nil && result.h != nil && fresh(result) && fresh(result.h)
 
 // WriteTo of these pointer types tolerates a nil receiver (checked by their own contracts).
 //@ axiom nilfails_type(typeid(*paillier.Ciphertext)) && nilfails_type(typeid(*pedersen.Parameters)) && nilfails_type(typeid(*paillier.PublicKey))
